@@ -761,6 +761,9 @@ def _wrap(rng, members, const_expr, hashable=()):
         items.append((const(1), const("lit")))
         return X("dict", items)
     inner = X(rng.choice(["list", "tuple"]), list(members))
+    if rng.random() < 0.3:
+        # the SAME container object reachable twice in one argument (a finite nesting, not a cycle): [row, row]
+        return X(rng.choice(["list", "tuple"]), [inner, inner] + extra)
     return X(rng.choice(["list", "tuple"]), [inner] + extra + [X("list", [const(1), const(2)])])
 
 
